@@ -375,8 +375,26 @@ def run_property(ctx, spec, t_start):
             r["playback_wall_s"] = r2["wall_s"]
         return job, r, info, pb
 
+    import threading
+    budget = float(os.environ.get("VERIF_MEM_GB", "44"))
+    cond = threading.Condition()
+    in_use = [0.0]
+
+    def gated(job):
+        need = min(float(job.get("est_gb", 2.0)), budget)
+        with cond:
+            while in_use[0] + need > budget:
+                cond.wait()
+            in_use[0] += need
+        try:
+            return run_job(job)
+        finally:
+            with cond:
+                in_use[0] -= need
+                cond.notify_all()
+
     results = []
-    futs = [pool.submit(run_job, j) for j in jobs]
+    futs = [pool.submit(gated, j) for j in jobs]
     for f in cf.as_completed(futs):
         job, r, info, pb = f.result()
         results.append((job, r, info, pb))
